@@ -1,12 +1,128 @@
 /-
-  C16 — multisig descriptors (work in progress: first theorems)
--/
-import Buidl.Model.Descriptor
-namespace Buidl.Props.C16
-open Buidl Buidl.Descriptor
+  C16 — multisig descriptors: checksum, error detection, address derivation.
+  Property theorems only (helper lemmas: Buidl.Proofs.Descriptor, Buidl.Proofs.DescriptorPoly).
 
-/-- receive and change use different child indices of every cosigner -/
+  Model: Buidl.Model.Descriptor (constants from Buidl.Gen.Descriptor, re-extracted from /repo on every run);
+  specification of the checksum: Buidl.Spec.DescriptorChecksum (Bitcoin Core's `DescriptorChecksum`, with its
+  own literal constants — a changed generator constant, charset, shift or mask in descriptor.py makes
+  `checksum_eq_core` fail to compile).  `hash256`, `sha256`, `hmac`, `h160` are arbitrary functions.
+-/
+import Buidl.Proofs.Descriptor
+namespace Buidl.Props.C16
+open Buidl Buidl.PyStr Buidl.HD Buidl.Descriptor
+
+/-! ## calc_core_checksum = Bitcoin Core's DescriptorChecksum -/
+
+theorem charsets_eq_core :
+    inputCharset = Spec.DescriptorChecksum.INPUT_CHARSET ∧ checksumCharset = Spec.DescriptorChecksum.CHECKSUM_CHARSET :=
+  ⟨inputCharset_eq, checksumCharset_eq⟩
+
+/-- calc_poly_mod (a fold over the extracted generator table) is Core's `PolyMod` -/
+theorem polymod_eq_core (c val : Nat) : polyMod c val = Spec.DescriptorChecksum.polyMod c val :=
+  polyMod_eq c val
+
+/-- for every text: same refusal (a character outside the charset) and same eight characters.  Core's
+    algorithm is written as the symbol / class-symbol stream followed by a fold; the code interleaves them in
+    one loop with three state variables. -/
+theorem checksum_eq_core (desc : Str) : calcCoreChecksum desc = Spec.DescriptorChecksum.descriptorChecksum desc :=
+  calcCoreChecksum_eq desc
+
+/-! ## error detection -/
+
+/-- replacing any one character of the body by a different one changes the checksum — for every body, every
+    position and every pair of characters (if the new character is outside the charset the text is refused
+    altogether: `calcCoreChecksum = none`) -/
+theorem checksum_detects_substitution (pre post : Str) (ch ch' : Char) (hne : ch ≠ ch') (cs cs' : Str)
+    (h : calcCoreChecksum (pre ++ ch :: post) = some cs) (h' : calcCoreChecksum (pre ++ ch' :: post) = some cs') :
+    cs ≠ cs' :=
+  calcCoreChecksum_detects pre post ch ch' hne cs cs' h h'
+
+/-- the underlying code property: two symbol streams that differ only inside a window of at most eight
+    consecutive symbols (a burst of up to 40 bits) reach different 40-bit states, whatever precedes and follows -/
+theorem polymod_detects_window (S G G' T : List Nat) (c0 : Nat) (hc0 : c0 < 2 ^ 40)
+    (hS : ∀ x ∈ S, x < 32) (hG : ∀ x ∈ G, x < 32) (hG' : ∀ x ∈ G', x < 32)
+    (hl : G.length = G'.length) (h8 : G.length ≤ 8) (hne : G ≠ G') :
+    (S ++ G ++ T).foldl polyMod c0 ≠ (S ++ G' ++ T).foldl polyMod c0 := by
+  have e : polyMod = Spec.DescriptorChecksum.polyMod := by funext c v; exact polyMod_eq c v
+  rw [e]
+  exact Spec.DescriptorChecksum.fold_detects_window S G G' T c0 hc0 hS hG hG' hl h8 hne
+
+/-- the constructor keeps `checksum = calc_core_checksum(descriptor_text)` and accepts a supplied checksum only
+    if it is that one -/
+theorem construct_checksum_accept (hash256 : Bytes → Bytes) (m : Int) (krs : List KeyRecord) (cs : Str) (srt : Bool)
+    (d : Desc) (h : construct hash256 m krs cs srt = some d) :
+    calcCoreChecksum d.text = some d.checksum ∧ (cs ≠ [] → d.checksum = cs) :=
+  construct_checksum hash256 m krs cs srt d h
+
+/-- any alteration of the eight checksum characters (or of their number) is detected: if a descriptor was
+    accepted with checksum `cs`, the same body with any other non-empty checksum is refused -/
+theorem construct_checksum_mismatch_rejected (hash256 : Bytes → Bytes) (m : Int) (krs : List KeyRecord)
+    (cs cs' : Str) (srt : Bool) (d : Desc) (h : construct hash256 m krs cs srt = some d)
+    (hcs : cs ≠ []) (hcs' : cs' ≠ []) (hne : cs' ≠ cs) : construct hash256 m krs cs' srt = none :=
+  construct_checksum_altered hash256 m krs cs cs' srt d h hcs hcs' hne
+
+/-- what `str(d)` is made of -/
+theorem descriptor_text_layout (hash256 : Bytes → Bytes) (m : Int) (krs : List KeyRecord) (cs : Str) (srt : Bool)
+    (d : Desc) (h : construct hash256 m krs cs srt = some d) :
+    d.repr = descriptorText d.m d.keyRecords ++ '#' :: d.checksum ∧ (1 : Int) ≤ m ∧ d.m = m.toNat := by
+  unfold construct at h
+  simp only [Option.bind_eq_some_iff] at h
+  obtain ⟨d0, hd0, h⟩ := h
+  split at h
+  · cases h
+  · have hd : d0 = d := Option.some.inj h
+    subst hd
+    obtain ⟨ht, hm, hm'⟩ := constructCore_text hash256 m krs srt d0 hd0
+    exact ⟨by rw [Desc.repr, ht], hm, hm'⟩
+
+/-! ## addresses -/
+
+section
+variable (hash256 sha256 : Bytes → Bytes) (hmac : Bytes → Bytes → Bytes) (h160 : Bytes → Bytes)
+
+/-- sorted(child keys) does not depend on the order of the child keys -/
+theorem sort_keys_perm {l l' : List Bytes} (h : l.Perm l') : sortKeys l = sortKeys l' := sortKeys_perm h
+
+/-- get_address is invariant under any permutation of the key records (same m, same network) -/
+theorem get_address_perm_invariant (d d' : Desc) (hm : d.m = d'.m) (hn : d.network = d'.network)
+    (hp : d.keyRecords.Perm d'.keyRecords) (offset : Nat) (isChange : Bool) :
+    getAddress hash256 sha256 hmac h160 d offset isChange = getAddress hash256 sha256 hmac h160 d' offset isChange :=
+  getAddress_perm hash256 sha256 hmac h160 d d' hm hn hp offset isChange
+
+/-- get_address(offset, is_change) is the P2WSH address — witness version 0, program sha256(script) — of
+    `OP_m <33-byte child key>… OP_n OP_CHECKMULTISIG` over the cosigners' child keys in lexicographic order,
+    each child key being `xpub / (account_index [+1 for change]) / offset` (`leafSec`) -/
+theorem get_address_eq_p2wsh (hs : ∀ b, (sha256 b).length = 32) (d : Desc) (hm1 : 1 ≤ d.m)
+    (hn1 : 1 ≤ d.keyRecords.length) (offset : Nat) (isChange : Bool) (addr : Str)
+    (h : getAddress hash256 sha256 hmac h160 d offset isChange = some addr) :
+    ∃ keys, d.keyRecords.mapM (fun kr => leafSec hash256 hmac h160 kr offset isChange) = some keys ∧
+      keys.length = d.keyRecords.length ∧ d.m ≤ 16 ∧ keys.length ≤ 16 ∧
+      Bech32.encodeBech32Checksum (0 :: 32 :: sha256 (multisigBytes d.m (sortKeys keys))) d.network.toList = some addr :=
+  getAddress_eq_p2wsh hash256 sha256 hmac h160 hs d hm1 hn1 offset isChange addr h
+
+/-- the script bytes, spelled out -/
+theorem p2wsh_script_bytes (m : Nat) (keys : List Bytes) :
+    multisigBytes m keys = [UInt8.ofNat (80 + m)] ++ (keys.map (fun k => (33 : UInt8) :: k)).flatten ++
+      [UInt8.ofNat (80 + keys.length), 174] := rfl
+
+/-- receive and change branches use different child indices of every cosigner: change = receive + 1 -/
+theorem change_index_eq_succ (kr : KeyRecord) : accountFor kr true = accountFor kr false + 1 := by
+  simp [accountFor]
+
 theorem change_index_ne_receive (kr : KeyRecord) : accountFor kr true ≠ accountFor kr false := by
   simp [accountFor]; omega
+
+end
+
+/-! ## non-vacuity -/
+
+example : calcCoreChecksum "wsh(sortedmulti(1,))".toList = Spec.DescriptorChecksum.descriptorChecksum "wsh(sortedmulti(1,))".toList :=
+  checksum_eq_core _
+
+example : (calcCoreChecksum "raw(deadbeef)".toList).isSome = true := by decide +kernel
+
+example : calcCoreChecksum "raw(deadbeef)".toList ≠ calcCoreChecksum "raw(deadbeff)".toList := by decide +kernel
+
+example : regexesAsModelled = true := by decide
 
 end Buidl.Props.C16
